@@ -393,7 +393,12 @@ fn gen_case(rng: &mut Rng, tier: Tier, force_default_capacity: bool, for_faults:
     prof.many_pct = if for_faults { 0 } else { 2 };
     prof.long_pct = 0;
     let (mut pats, alpha) = gen::patterns(rng, &prof);
-    if !for_faults && rng.chance(1, 60) {
+    // one case in forty: a searcher built from NO patterns (a legal collection;
+    // the stream is then passed through unchanged, and faults still surface)
+    if rng.chance(1, 40) {
+        pats.clear();
+    }
+    if !pats.is_empty() && !for_faults && rng.chance(1, 60) {
         // one very long pattern so that 8*min exceeds the default capacity
         let l = rng.range(8200, 9200);
         pats.push(gen::rand_string(rng, &alpha, l));
@@ -704,8 +709,25 @@ pub fn c08_check(rep: &mut Report, c: &StreamCase, s: &S) {
 
 // ------------------------------------------------------------ C18
 
-const KINDS: [ErrorKind; 4] =
-    [ErrorKind::Other, ErrorKind::Interrupted, ErrorKind::UnexpectedEof, ErrorKind::WouldBlock];
+/// Every way an I/O layer commonly fails (the crate must not care which).
+const KINDS: [ErrorKind; 16] = [
+    ErrorKind::Other,
+    ErrorKind::Interrupted,
+    ErrorKind::UnexpectedEof,
+    ErrorKind::WouldBlock,
+    ErrorKind::BrokenPipe,
+    ErrorKind::ConnectionReset,
+    ErrorKind::ConnectionAborted,
+    ErrorKind::TimedOut,
+    ErrorKind::WriteZero,
+    ErrorKind::InvalidData,
+    ErrorKind::InvalidInput,
+    ErrorKind::PermissionDenied,
+    ErrorKind::NotFound,
+    ErrorKind::AlreadyExists,
+    ErrorKind::OutOfMemory,
+    ErrorKind::Unsupported,
+];
 
 pub fn c18_check(rep: &mut Report, c: &StreamCase, s: &S, rng: &mut Rng) {
     // fault-free reference run (find)
